@@ -2,7 +2,7 @@
    Print Assumptions. *)
 From Coq Require Import ZArith NArith List Bool Sorted.
 From Centro Require Import Base.GraphC15 Model.LabelGraph Spec.LabelGraph
-  Proofs.ColorC15 Proofs.DfsC15 Proofs.AccC15 Proofs.EulerC15 Proofs.RelabelC15 Proofs.NeighborsC15 Proofs.EulerQuadC15.
+  Proofs.ColorC15 Proofs.DfsC15 Proofs.AccC15 Proofs.EulerC15 Proofs.RelabelC15 Proofs.NeighborsC15 Proofs.EulerQuadC15 Proofs.EulerStepC15 Proofs.AccCertC15 Proofs.SpecC15.
 Import ListNotations.
 
 (* ---- all_connected_components / _all_connected_components (Full, including termination) ----
@@ -79,6 +79,26 @@ Theorem C15_coloring_proper : forall img : image, rect img -> exists g : Z -> Z,
 Proof. exact coloring_proper. Qed.
 Print Assumptions C15_coloring_proper.
 
+(* Welsh-Powell bound (Full): the colour table that color_labels reads never exceeds 1 + the number
+   of neighbours of the label (so at most 1 + max degree colours are used) *)
+Theorem C15_coloring_degree_bound : forall (img : image) v_color, rect img -> color_table img = Some v_color ->
+  forall l, 1 <= l <= img_max img ->
+    getl v_color l <= 1 + nth (Z.to_nat (l - 1)) (fst (fst (find_neighbors img))) 0.
+Proof. exact coloring_degree_bound. Qed.
+Print Assumptions C15_coloring_degree_bound.
+
+(* the literal crange/misses arithmetic of the code equals the first-free recursion, and the rows are
+   processed in the order of a sort by non-increasing neighbour count (lexsort([-v_count])) *)
+Theorem C15_misses_is_first_free : forall colors, pick_from colors = first_free 1 colors.
+Proof. exact pick_from_first_free. Qed.
+Print Assumptions C15_misses_is_first_free.
+
+Theorem C15_degree_order : forall (A : Type) (key : A -> Z) (l : list A),
+  StronglySorted (fun a b => key a <= key b) (sort_by key l) /\ (forall y, In y (sort_by key l) <-> In y l) /\
+  length (sort_by key l) = length l.
+Proof. exact @sort_by_sorted. Qed.
+Print Assumptions C15_degree_order.
+
 (* ---- color_labels: the first-free-colour rule never returns a colour of a neighbour ---- *)
 Theorem C15_first_free_spec : forall colors k,
   StronglySorted Z.lt colors -> (forall c, In c colors -> k <= c) ->
@@ -97,11 +117,46 @@ Proof. exact quad_counts_spec. Qed.
 Print Assumptions C15_quad_counts_spec.
 
 (* ---- euler_number = 8-components - holes: Finite (exhaustive, bound in the statement) ---- *)
-(* euler_is_components_minus_holes_partial — the general statement
-     forall img l, rect img -> l <> 0 -> euler4 img l = 4 * euler_spec img l
-   is NOT proved: missing is the lemma "deleting an (8,4)-simple pixel changes neither the quad
-   count n(Q1) - n(Q3) - 2 n(QD) nor components - holes" together with a reduction of every
-   finite pixel set to the empty set; only the two exhaustive sweeps below are proved. *)
+(* ---- euler_number under deletion of a pixel (Full): the change of 4 W is the local term qdelta of the
+   eight neighbours; Finite-256 lifted to every image: an (8,4)-simple pixel (simple8 on the 3x3
+   pattern) changes nothing ---- *)
+Theorem C15_euler_removal_step : forall (img : image) (l y x : Z), rect img -> l <> 0 -> get2 img y x = l ->
+  euler4 img l = euler4 (remove_px img y x) l +
+    qdelta (inS img l (y + -1) (x + -1)) (inS img l (y + -1) (x + 0)) (inS img l (y + -1) (x + 1))
+           (inS img l (y + 0) (x + -1)) (inS img l (y + 0) (x + 1))
+           (inS img l (y + 1) (x + -1)) (inS img l (y + 1) (x + 0)) (inS img l (y + 1) (x + 1)).
+Proof. exact euler_removal_step. Qed.
+Print Assumptions C15_euler_removal_step.
+
+Theorem C15_euler_simple_deletion : forall (img : image) (l y x : Z), rect img -> l <> 0 -> get2 img y x = l ->
+  simple_at img l y x = true -> euler4 (remove_px img y x) l = euler4 img l.
+Proof. exact euler_simple_deletion. Qed.
+Print Assumptions C15_euler_simple_deletion.
+
+(* euler_reducible (Full): 4 W = 4 k for every image whose label-l pixel set is emptied by deletions
+   of simple pixels and k deletions of isolated points (Reduces) - every size, every label image *)
+Theorem C15_euler_reducible : forall l : Z, l <> 0 -> forall img k, Reduces l img k -> rect img -> euler4 img l = 4 * k.
+Proof. exact euler_reducible. Qed.
+Print Assumptions C15_euler_reducible.
+
+(* euler_is_components_minus_holes_partial: the statement at full strength is
+     forall img l, rect img -> l <> 0 -> euler4 img l = 4 * euler_spec img l.
+   Proved: the equality for every reducible image GIVEN the three facts about components - holes
+   (Spec.LabelGraph.euler_spec) that are hypotheses below.  Missing: (1) components - holes is invariant
+   under deletion of an (8,4)-simple pixel - this is C05's simple_removal_topo (proved locally on the
+   3x3 pattern only: Proofs.EulerStepC15.simple_local_topology); (2) an isolated point is one component
+   and no hole; (3) the empty set has none; and images with holes are not reducible (a one-pixel-wide
+   ring has no simple pixel), for them only the exhaustive sweeps below apply. *)
+Theorem C15_euler_is_components_minus_holes_partial : forall l : Z, l <> 0 ->
+  (forall img y x, rect img -> get2 img y x = l -> simple_at img l y x = true ->
+     euler_spec (remove_px img y x) l = euler_spec img l) ->
+  (forall img y x, rect img -> get2 img y x = l -> isolated_at img l y x = true ->
+     euler_spec (remove_px img y x) l = euler_spec img l - 1) ->
+  (forall img, rect img -> (forall y x, get2 img y x <> l) -> euler_spec img l = 0) ->
+  forall img k, Reduces l img k -> rect img -> euler4 img l = 4 * euler_spec img l.
+Proof. exact euler_is_components_minus_holes_partial. Qed.
+Print Assumptions C15_euler_is_components_minus_holes_partial.
+
 Theorem C15_euler_is_components_minus_holes_3x3 : forall h w im l,
   (1 <= h <= 3)%nat -> (1 <= w <= 3)%nat -> length im = h ->
   Forall (fun r => length r = w /\ Forall (fun v => In v [0;1;2]) r) im -> In l [1;2] ->
@@ -115,3 +170,71 @@ Theorem C15_euler_is_components_minus_holes_binary : forall h w im l,
   euler4 im l = 4 * euler_spec im l.
 Proof. exact euler_components_minus_holes_4x4. Qed.
 Print Assumptions C15_euler_is_components_minus_holes_binary.
+
+(* ================================================================ the checkers that are run on the
+   implementation's outputs have a declarative meaning (checker soundness, all Full) *)
+
+(* the flood fill counts the classes of the connectivity relation (paths inside the set along a
+   symmetric adjacency): there is a list of representatives, exactly one per class *)
+Theorem C15_n_components_spec : forall (A : Type) (adj : A -> A -> bool), (forall x y, adj x y = adj y x) ->
+  forall s : list A, NoDup s -> exists reps : list A,
+  n_components adj s = Z.of_nat (length reps) /\ NoDup reps /\
+  (forall r, In r reps -> In r s) /\
+  (forall x, In x s -> exists r, In r reps /\ cpath adj s r x) /\
+  (forall r1 r2, In r1 reps -> In r2 reps -> cpath adj s r1 r2 -> r1 = r2).
+Proof. exact @n_components_spec. Qed.
+Print Assumptions C15_n_components_spec.
+
+Theorem C15_euler_spec_meaning : forall (img : image) (l : Z), l <> 0 -> exists fg bg : list px,
+  euler_spec img l = Z.of_nat (length fg) - (Z.of_nat (length bg) - 1) /\
+  (NoDup fg /\ (forall r, In r fg -> In r (pixels_of img l)) /\
+   (forall p, In p (pixels_of img l) -> exists r, In r fg /\ cpath adj8 (pixels_of img l) r p) /\
+   (forall r1 r2, In r1 fg -> In r2 fg -> cpath adj8 (pixels_of img l) r1 r2 -> r1 = r2)) /\
+  (NoDup bg /\ (forall r, In r bg -> In r (complement_of img l)) /\
+   (forall p, In p (complement_of img l) -> exists r, In r bg /\ cpath adj4 (complement_of img l) r p) /\
+   (forall r1 r2, In r1 bg -> In r2 bg -> cpath adj4 (complement_of img l) r1 r2 -> r1 = r2)).
+Proof. exact euler_spec_meaning. Qed.
+Print Assumptions C15_euler_spec_meaning.
+
+Theorem C15_euler_ok_sound : forall img idx w4, euler_ok img idx w4 = true ->
+  length idx = length w4 /\ forall k, (k < length idx)%nat -> nth k w4 0 = 4 * euler_spec img (nth k idx 0).
+Proof. exact euler_ok_sound. Qed.
+Print Assumptions C15_euler_ok_sound.
+
+Theorem C15_neighbors_ok_sound : forall img v_count v_index v_neighbor, rect img ->
+  neighbors_ok img v_count v_index v_neighbor = true ->
+  Z.of_nat (length v_count) = img_max img /\ v_index = excl_cumsum 0 v_count /\
+  forall l, 1 <= l <= img_max img ->
+    forall m, In m (slice (nth (Z.to_nat (l - 1)) v_index 0) (nth (Z.to_nat (l - 1)) v_count 0) v_neighbor) <->
+              m <> 0 /\ m <> l /\ touching img l m.
+Proof. exact neighbors_ok_sound. Qed.
+Print Assumptions C15_neighbors_ok_sound.
+
+Theorem C15_colors_ok_sound : forall img col, colors_ok img col = true ->
+  forall y x, 0 <= y < Z.of_nat (img_h img) -> 0 <= x < Z.of_nat (img_w img) ->
+    (get2 img y x = 0 -> get2 col y x = 0) /\ (get2 img y x <> 0 -> 0 < get2 col y x) /\
+    (forall y' x', 0 <= y' < Z.of_nat (img_h img) -> 0 <= x' < Z.of_nat (img_w img) ->
+       get2 img y x = get2 img y' x' -> get2 col y x = get2 col y' x') /\
+    (forall d, In d dirs8 -> get2 img y x <> 0 -> get2 img (y + fst d) (x + snd d) <> 0 ->
+       get2 img y x <> get2 img (y + fst d) (x + snd d) -> get2 col y x <> get2 col (y + fst d) (x + snd d)).
+Proof. exact colors_ok_sound. Qed.
+Print Assumptions C15_colors_ok_sound.
+
+Theorem C15_relabel_ok_sound : forall img new n, relabel_ok img new n = true ->
+  (forall p, In p (rl_pairs img new) -> (fst p = 0 -> snd p = 0) /\ (fst p <> 0 -> 1 <= snd p <= n)) /\
+  (forall p q, In p (rl_pairs img new) -> In q (rl_pairs img new) -> fst p <> 0 -> fst q <> 0 ->
+     (fst p < fst q <-> snd p < snd q)) /\
+  (forall k, 1 <= k <= n -> In k (concat new)).
+Proof. exact relabel_ok_sound. Qed.
+Print Assumptions C15_relabel_ok_sound.
+
+(* the certificate checker for all_connected_components, any graph size: when it accepts, the labels
+   are exactly the partition of 0..max into the connected components of the undirected edge list *)
+Theorem C15_acc_cert_sound : forall i j labels par eidx dep rep : list N,
+  acc_cert_ok i j labels par eidx dep rep = true -> i <> [] ->
+  let n := S (N.to_nat (list_maxN (i ++ j))) in
+  length i = length j /\ length labels = n /\
+  forall u w, (u < n)%nat -> (w < n)%nat ->
+    (nth u labels 0%N = nth w labels 0%N <-> uconn (combine i j) (N.of_nat u) (N.of_nat w)).
+Proof. exact acc_cert_sound. Qed.
+Print Assumptions C15_acc_cert_sound.
